@@ -41,6 +41,10 @@ func (x *X) globalPtr(g *ssa.Global) *PtrV {
 			if !declared {
 				declared = true
 				x.vc.decl(fmt.Sprintf("(declare-const %s %s)", name, s))
+				if _, isPtr := el.Underlying().(*types.Pointer); isPtr && g.Pkg != nil && !isModulePkg(g.Pkg.Pkg.Path(), x.module) {
+					x.vc.decl(fmt.Sprintf("(assert (> %s 0))", name))
+					x.enc.assumption("package-level pointer variables of other modules (" + g.String() + ") are non-nil")
+				}
 			}
 			return T(s, name)
 		}}
@@ -462,7 +466,8 @@ func (x *X) convert(fr *Frame, st *State, in *ssa.Convert) SV {
 		el := from.Underlying().(*types.Slice).Elem()
 		es := x.enc.sortOf(el)
 		inner := mkSelect(x.get(st, x.elemsKey(es)), base, arraySort(x.enc.isz(), es))
-		r := x.vc.define("str", x.ufS("strofbytes_"+sanitize(string(es)), SStr, inner, off, ln))
+		r := x.vc.fresh("str", SStr)
+		x.vc.assume(mkEq(r, x.ufS("strofbytes_"+sanitize(string(es)), SStr, inner, off, ln)))
 		if _, _, isByte := intInfo(el); isByte && el.Underlying().(*types.Basic).Kind() == types.Uint8 {
 			x.vc.assume(mkEq(app(x.enc.isz(), "strlen", r), ln))
 			x.strBytesAxiom(r, inner, off)
@@ -477,7 +482,8 @@ func (x *X) convert(fr *Frame, st *State, in *ssa.Convert) SV {
 		es := x.enc.sortOf(el)
 		r := x.newRef(st, "bytes")
 		k := x.elemsKey(es)
-		inner := x.vc.define("bytes", x.ufS("bytesof_"+sanitize(string(es)), arraySort(x.enc.isz(), es), s))
+		inner := x.vc.fresh("bytes", arraySort(x.enc.isz(), es))
+		x.vc.assume(mkEq(inner, x.ufS("bytesof_"+sanitize(string(es)), arraySort(x.enc.isz(), es), s)))
 		st.mem[k] = x.vc.define("h", mkStore(x.get(st, k), r, inner))
 		var ln Term
 		if b, ok := el.Underlying().(*types.Basic); ok && b.Kind() == types.Uint8 {
@@ -614,7 +620,8 @@ func (x *X) slice(fr *Frame, st *State, in *ssa.Slice) SV {
 			hi = ln
 		}
 		x.safety(st, fr, "slice-bounds", mkAnd(x.ile(x.ic(0), lo), x.ile(lo, hi), x.ile(hi, ln)), in.Pos())
-		r := x.vc.define("sub", app(SStr, "substr", s, lo, hi))
+		r := x.vc.fresh("sub", SStr)
+		x.vc.assume(mkEq(r, app(SStr, "substr", s, lo, hi)))
 		x.vc.assume(mkEq(app(x.enc.isz(), "strlen", r), x.isub(hi, lo)))
 		if !x.enc.bv {
 			x.vc.assume(T(SBool, fmt.Sprintf("(forall ((i Int)) (! (=> (and (<= 0 i) (< i (- %s %s))) (= (strat %s i) (strat %s (+ %s i)))) :pattern ((strat %s i))))", hi.S, lo.S, r.S, s.S, lo.S, r.S)))
